@@ -272,6 +272,25 @@ PROPS["C09"] = dict(
     thorough=dict(shards=16, timeout=3000),
 )
 
+PROPS["C12"] = dict(
+    pkg="c12", level="exploration", design_ref="DESIGN.md section 3, C12",
+    technique="rapid-generated and swept payload lengths/contents through an IO-level recording service on every transport (byte-exact differential in both directions); exhaustive single-bit header corruption and declared-versus-actual length matrices with hand-made frames against the real server and, through a scripted peer, against the real client",
+    level_text=("An IO plugin records the exact request bytes the service is handed and answers with generated bytes of a requested length; raw Client.Request is used on mock, tcp, "
+                "unix, udp, websocket (net/http and fasthttp servers), net/http and fasthttp (both client transports). (a) rapid draws request and response lengths with boundary bias "
+                "(header sizes, 255/256, 1012/1024, buffer multiples, 65,499/65,507, 64 KiB, 1 MiB) and contents (random, zeros, 0xff, frame-header lookalikes, the too-large text): "
+                "service-side bytes and caller-side bytes must be exact; beyond the datagram limit the call must fail and the next call succeed. (b) every length in the boundary "
+                "windows in both directions. (c) different payloads in flight at once. (d) hand-made frames to the real server: every single-bit corruption of the socket and UDP "
+                "headers, every combination of declared/actual length on UDP after another client's long datagram, short socket bodies then close/half-close/stall, HTTP bodies shorter "
+                "than Content-Length and chunked bodies: nothing may be delivered unless consistent. (e) a scripted peer sends the real client corrupted or inconsistent responses: "
+                "the caller must get an error, never bytes."),
+    level_note="On stream sockets and HTTP a declared length smaller than what follows is not generated: the surplus is by definition the next message of the same sender.",
+    rule=("round-trip: rapid-drawn (endpoint, lengths, content), non-trivial = non-empty message; every-length / header-bit / declared-length / http-bodies / client-side-frames: enumerated, all non-trivial. "
+          "Classes: transport, content kind, multi-buffer sizes, over-datagram, declared smaller/larger/equal. Distinct by case text."),
+    assumptions=["loopback networking and unix sockets are available"],
+    quick=dict(shards=4, timeout=900),
+    thorough=dict(shards=16, timeout=3000),
+)
+
 # properties not claimed yet (kept current as checks land)
 _ALL = ["C%02d" % i for i in range(1, 21)]
 NOT_APPLICABLE = [dict(property_id=p, reason="check not built yet in this revision (planned in DESIGN.md section 3); not a limit of the technique")
